@@ -84,27 +84,39 @@ theorem look_cons (m : Memo N R) (n x : N) (v : R) :
     have : (x == n) = false := by simp [h]
     simp [this]
 
+/-- reflexive-transitive descendant relation -/
+inductive Desc (g : G N) : N → N → Prop
+  | refl (n : N) : Desc g n n
+  | step (n c x : N) : c ∈ g.children n → Desc g c x → Desc g n x
+
+/-- `From g roots m m'`: every entry of `m'` was in `m` or is a descendant of one of the roots -/
+def From (g : G N) (roots : List N) (m m' : Memo N R) : Prop :=
+  ∀ x, (look m' x).isSome → (look m x).isSome ∨ ∃ r ∈ roots, Desc g r x
+
 def Reach (g : G N) (f : N → List R → R) (s : St N R) (rest : List (Bool × N)) (m : Memo N R)
-    (P : Memo N R → Prop) : Prop :=
-  ∃ j m' calls', iter g f j s = ⟨rest, m', calls'⟩ ∧ Closed g f m' ∧ Ext m m' ∧ P m'
+    (roots : List N) (P : Memo N R → Prop) : Prop :=
+  ∃ j m' calls', iter g f j s = ⟨rest, m', calls'⟩ ∧ Closed g f m' ∧ Ext m m' ∧ P m' ∧
+    calls' + m.length = s.calls + m'.length ∧ From g roots m m'
+
+theorem From.refl (g : G N) (roots : List N) (m : Memo N R) : From g roots m m := fun _ h => Or.inl h
 
 theorem run_list (g : G N) (f : N → List R → R) (k : Nat)
     (IH : ∀ n, g.rank n < k → ∀ rest m calls, Closed g f m →
-      Reach g f ⟨(false, n) :: rest, m, calls⟩ rest m (fun m' => (look m' n).isSome)) :
+      Reach g f ⟨(false, n) :: rest, m, calls⟩ rest m [n] (fun m' => (look m' n).isSome)) :
     ∀ cs : List N, (∀ c ∈ cs, g.rank c < k) → ∀ tail m calls, Closed g f m →
-      Reach g f ⟨(cs.map (fun c => (false, c))).reverse ++ tail, m, calls⟩ tail m
+      Reach g f ⟨(cs.map (fun c => (false, c))).reverse ++ tail, m, calls⟩ tail m cs
         (fun m' => ∀ c ∈ cs, (look m' c).isSome) := by
   intro cs
   induction cs with
   | nil =>
     intro _ tail m calls hm
-    exact ⟨0, m, calls, rfl, hm, Ext.refl m, by simp⟩
+    exact ⟨0, m, calls, rfl, hm, Ext.refl m, by simp, rfl, From.refl g [] m⟩
   | cons c cs ih =>
     intro hr tail m calls hm
     have hr' : ∀ c' ∈ cs, g.rank c' < k := fun c' h => hr c' (List.mem_cons_of_mem _ h)
-    obtain ⟨j1, m1, c1, e1, hm1, x1, p1⟩ := ih hr' ((false, c) :: tail) m calls hm
-    obtain ⟨j2, m2, c2, e2, hm2, x2, p2⟩ := IH c (hr c List.mem_cons_self) tail m1 c1 hm1
-    refine ⟨j1 + j2, m2, c2, ?_, hm2, x1.trans x2, ?_⟩
+    obtain ⟨j1, m1, c1, e1, hm1, x1, p1, n1, f1⟩ := ih hr' ((false, c) :: tail) m calls hm
+    obtain ⟨j2, m2, c2, e2, hm2, x2, p2, n2, f2⟩ := IH c (hr c List.mem_cons_self) tail m1 c1 hm1
+    refine ⟨j1 + j2, m2, c2, ?_, hm2, x1.trans x2, ?_, ?_, ?_⟩
     · rw [iter_add]
       have : (List.map (fun c => (false, c)) (c :: cs)).reverse ++ tail
            = (List.map (fun c => (false, c)) cs).reverse ++ ((false, c) :: tail) := by
@@ -115,25 +127,31 @@ theorem run_list (g : G N) (f : N → List R → R) (k : Nat)
       · exact p2
       · obtain ⟨r, hr⟩ := Option.isSome_iff_exists.mp (p1 c' h)
         simp [x2 c' r hr]
+    · simp only at n1 n2 ⊢; omega
+    · intro x hx
+      rcases f2 x hx with h | ⟨r, hr, hd⟩
+      · rcases f1 x h with h' | ⟨r, hr, hd⟩
+        · exact Or.inl h'
+        · exact Or.inr ⟨r, List.mem_cons_of_mem _ hr, hd⟩
+      · simp only [List.mem_singleton] at hr; subst hr
+        exact Or.inr ⟨r, List.mem_cons_self, hd⟩
 
 theorem run_expand (g : G N) (f : N → List R → R) :
     ∀ k n, g.rank n < k → ∀ rest m calls, Closed g f m →
-      Reach g f ⟨(false, n) :: rest, m, calls⟩ rest m (fun m' => (look m' n).isSome) := by
+      Reach g f ⟨(false, n) :: rest, m, calls⟩ rest m [n] (fun m' => (look m' n).isSome) := by
   intro k
   induction k with
   | zero => intro n hn; omega
   | succ k ih =>
     intro n hn rest m calls hm
-    -- one step: expansion
     let todo := (g.children n).filter (fun c => (look m c).isNone)
     have htodo : ∀ c ∈ todo, g.rank c < k := by
       intro c hc
       have hc' : c ∈ g.children n := (List.mem_filter.mp hc).1
       have := g.acyclic n c hc'
       omega
-    obtain ⟨j1, m1, c1, e1, hm1, x1, p1⟩ :=
+    obtain ⟨j1, m1, c1, e1, hm1, x1, p1, n1, f1⟩ :=
       run_list g f k ih todo htodo ((true, n) :: rest) m calls hm
-    -- all children memoised in m1
     have hall : ∀ c ∈ g.children n, (look m1 c).isSome := by
       intro c hc
       by_cases hmc : (look m c).isSome
@@ -143,11 +161,16 @@ theorem run_expand (g : G N) (f : N → List R → R) :
         apply List.mem_filter.mpr
         refine ⟨hc, ?_⟩
         cases h : look m c <;> simp_all
+    have hfrom : From g [n] m m1 := by
+      intro x hx
+      rcases f1 x hx with h | ⟨r, hr, hd⟩
+      · exact Or.inl h
+      · exact Or.inr ⟨n, List.mem_singleton.mpr rfl, Desc.step n r x (List.mem_filter.mp hr).1 hd⟩
     have hstep1 : step g f ⟨(false, n) :: rest, m, calls⟩ =
         ⟨(todo.map (fun c => (false, c))).reverse ++ (true, n) :: rest, m, calls⟩ := rfl
     cases hl : look m1 n with
     | some r =>
-      refine ⟨1 + (j1 + 1), m1, c1, ?_, hm1, x1, by simp [hl]⟩
+      refine ⟨1 + (j1 + 1), m1, c1, ?_, hm1, x1, by simp [hl], by simpa using n1, hfrom⟩
       rw [iter_add, iter_add]
       simp only [iter, hstep1, e1]
       simp [step, hl]
@@ -156,7 +179,7 @@ theorem run_expand (g : G N) (f : N → List R → R) :
       have hv : v = spec g f n := by
         show f n _ = _
         rw [args_ok g f m1 hm1 _ hall, spec_eq g f n]
-      refine ⟨1 + (j1 + 1), (n, v) :: m1, c1 + 1, ?_, ?_, ?_, ?_⟩
+      refine ⟨1 + (j1 + 1), (n, v) :: m1, c1 + 1, ?_, ?_, ?_, ?_, ?_, ?_⟩
       · rw [iter_add, iter_add]
         simp only [iter, hstep1, e1]
         simp [step, hl, v]
@@ -181,6 +204,22 @@ theorem run_expand (g : G N) (f : N → List R → R) :
         · simp [hxn]; exact x1 x r hx
       · show (look ((n, v) :: m1) n).isSome = true
         rw [look_cons]; simp
+      · simp only [List.length_cons] at n1 ⊢; omega
+      · intro x hx
+        rw [look_cons] at hx
+        by_cases hxn : x = n
+        · subst hxn; exact Or.inr ⟨x, List.mem_singleton.mpr rfl, Desc.refl x⟩
+        · simp only [hxn, if_false] at hx; exact hfrom x hx
 
+/-- C20 reading: the number of callback invocations of a walk equals the number of memo entries it adds, every
+    added entry is a descendant of the root, and afterwards the root (hence, by `Closed.down`, every descendant) is memoised -/
+theorem calls_eq_new_entries (g : G N) (f : N → List R → R) (n : N) (m : Memo N R) (calls : Nat) (hm : Closed g f m) :
+    ∃ j m' calls', iter g f j ⟨[(false, n)], m, calls⟩ = ⟨[], m', calls'⟩ ∧
+      look m' n = some (spec g f n) ∧ calls' - calls = m'.length - m.length ∧ From g [n] m m' ∧ Closed g f m' := by
+  obtain ⟨j, m', c', e, hc, hx, hp, hn, hf⟩ := run_expand g f (g.rank n + 1) n (Nat.lt_succ_self _) [] m calls hm
+  refine ⟨j, m', c', e, ?_, by simp only at hn; omega, hf, hc⟩
+  obtain ⟨r, hr⟩ := Option.isSome_iff_exists.mp hp
+  rw [hr, hc.ok n r hr]
+
+#print axioms calls_eq_new_entries
 end Walker
-#print axioms Walker.run_expand
